@@ -107,9 +107,6 @@ func resolvePathCompositeFieldReference(scope *Scope, reference pgsql.RowColumnR
 	}
 
 	binding, bound := scope.Lookup(identifier)
-	if !bound {
-		binding, bound = scope.AliasedLookup(identifier)
-	}
 	if !bound || binding.DataType != pgsql.PathComposite {
 		return nil, false, nil
 	}
@@ -214,17 +211,10 @@ func resolvePathCompositeFieldReferences(scope *Scope, expression pgsql.Expressi
 		return nil, nil
 
 	case pgsql.Identifier:
+		// Identifiers inside translated expressions are generated identifiers: they are resolved through the
+		// definitions only, never through the table of user aliases.
 		if binding, bound := scope.Lookup(typedExpression); !bound {
-			if aliasedBinding, aliasBound := scope.AliasedLookup(typedExpression); aliasBound {
-				binding = aliasedBinding
-				bound = true
-			}
-
-			if !bound || binding.DataType != pgsql.PathComposite {
-				return expression, nil
-			}
-
-			return expressionForPathComposite(binding, scope)
+			return expression, nil
 		} else if binding.DataType == pgsql.PathComposite {
 			return expressionForPathComposite(binding, scope)
 		}
